@@ -18,13 +18,14 @@ import (
 )
 
 type FSNode struct {
-	id    int
-	data  *IntArrCell
-	size  *Term
-	ddata *IntArrCell // durable content (as of the last Sync); nil = never synced (empty)
-	dsize *Term
-	isDir bool
+	id       int
+	data     *IntArrCell
+	size     *Term
+	ddata    *IntArrCell // durable content (as of the last Sync); nil = never synced (empty)
+	dsize    *Term
+	isDir    bool
 	mtimeSec *Term
+	dirty    bool // volatile content differs from the durable content (written or truncated since the last Sync)
 }
 
 type FSHandle struct {
@@ -37,13 +38,55 @@ type FSHandle struct {
 }
 
 type FSState struct {
-	files   map[string]*FSNode // volatile namespace
-	durable map[string]*FSNode // durable namespace
-	handles map[*StructCell]*FSHandle
-	nextID  int
-	tmpN    int
-	faults  bool
+	files     map[string]*FSNode // volatile namespace
+	durable   map[string]*FSNode // durable namespace
+	handles   map[*StructCell]*FSHandle
+	nextID    int
+	tmpN      int
+	faults    bool
 	mutations int
+	// crash states: the durable namespace and contents after each successful Sync (of a file or a directory); between
+	// two syncs nothing becomes durable in this model
+	syncSnaps       []map[string]fsSnap
+	unsyncedRenames int // renames whose source file had content that was not yet durable
+}
+
+type fsSnap struct {
+	data *IntArrCell
+	size *Term
+}
+
+func (st *FSState) snapshot() {
+	m := map[string]fsSnap{}
+	for k, n := range st.durable {
+		if n.isDir {
+			continue
+		}
+		d := &IntArrCell{N: -1, EW: 8, Ov: map[uint64]*Term{}}
+		if n.ddata != nil {
+			d.Base = n.ddata.Base
+			for i, v := range n.ddata.Ov {
+				d.Ov[i] = v
+			}
+		}
+		m[k] = fsSnap{data: d, size: n.dsize}
+	}
+	// and, under "data:<name>", the durable CONTENT of every file by its current (volatile) name, whether or not the
+	// directory entry itself is durable yet
+	for k, n := range st.files {
+		if n.isDir {
+			continue
+		}
+		d := &IntArrCell{N: -1, EW: 8, Ov: map[uint64]*Term{}}
+		if n.ddata != nil {
+			d.Base = n.ddata.Base
+			for i, v := range n.ddata.Ov {
+				d.Ov[i] = v
+			}
+		}
+		m["data:"+k] = fsSnap{data: d, size: n.dsize}
+	}
+	st.syncSnaps = append(st.syncSnaps, m)
 }
 
 func (p *Path) fsState() *FSState {
@@ -285,6 +328,9 @@ func addFSIntrinsics(m map[string]intrinsic) {
 		}
 		delete(st.files, from)
 		st.files[to] = node
+		if node.dirty {
+			st.unsyncedRenames++
+		}
 		p.fsEvent("rename", from+"->"+path.Base(to), true)
 		p.trace = append(p.trace, "fsrename:"+path.Base(from)+":"+path.Base(to))
 		return []Value{p.errNil()}
@@ -325,6 +371,7 @@ func addFSIntrinsics(m map[string]intrinsic) {
 				}
 			}
 			p.fsEvent("syncdir", h.name, true)
+			st.snapshot()
 			return []Value{p.errNil()}
 		}
 		h.node.dsize = h.node.size
@@ -332,7 +379,9 @@ func addFSIntrinsics(m map[string]intrinsic) {
 		for k, v := range h.node.data.Ov {
 			h.node.ddata.Ov[k] = v
 		}
+		h.node.dirty = false
 		p.fsEvent("sync", h.name, true)
+		st.snapshot()
 		return []Value{p.errNil()}
 	}
 	m["(*os.File).Stat"] = func(p *Path, fn *ssa.Function, a []Value, pos token.Pos, caller *ssa.Function) []Value {
@@ -359,6 +408,7 @@ func addFSIntrinsics(m map[string]intrinsic) {
 			p.unsupported("Truncate growing a file")
 		}
 		h.node.size = sz
+		h.node.dirty = true
 		p.trace = append(p.trace, "fstruncate:"+path.Base(h.name))
 		return []Value{p.errNil()}
 	}
@@ -442,6 +492,7 @@ func addFSIntrinsics(m map[string]intrinsic) {
 		}
 		end := c.Add(off, c.BV(64, uint64(n)))
 		h.node.size = c.Ite(c.SLT(h.node.size, end), end, h.node.size)
+		h.node.dirty = true
 		if advance {
 			h.pos = end
 		}
@@ -526,25 +577,34 @@ func addFSIntrinsics(m map[string]intrinsic) {
 		return []Value{SliceV{Arr: arr, Off: c.BV(64, 0), Len: c.BV(64, uint64(n)), Cap: c.BV(64, uint64(n))}, BoolV{c.True}}
 	}
 	// verifFSDurable(path) ([]byte, bool): what a reader sees after a crash now: the durable binding and content
-	m["verif:verifFSDurable"] = func(p *Path, fn *ssa.Function, a []Value, pos token.Pos, caller *ssa.Function) []Value {
-		st := p.fsState()
-		c := p.ctx
-		name := path.Clean(p.concStr(a[0], "verifFSDurable name"))
-		node, ok := st.durable[name]
-		if !ok {
-			return []Value{SliceV{Off: c.BV(64, 0), Len: c.BV(64, 0), Cap: c.BV(64, 0)}, BoolV{c.False}}
-		}
-		n := p.concLen(node.dsize, "verifFSDurable size")
-		arr := newIntArr(n, 8)
-		for i := 0; i < n; i++ {
-			if node.ddata == nil {
-				arr.Ov[uint64(i)] = c.BV(8, 0)
-			} else {
-				arr.Ov[uint64(i)] = node.ddata.read(c, c.BV(64, uint64(i)))
+	durableOf := func(byContent bool) intrinsic {
+		return func(p *Path, fn *ssa.Function, a []Value, pos token.Pos, caller *ssa.Function) []Value {
+			st := p.fsState()
+			c := p.ctx
+			name := path.Clean(p.concStr(a[0], "verifFSDurable name"))
+			node, ok := st.durable[name]
+			if byContent {
+				// the durable CONTENT of the file that is (volatile) bound to the name, whether or not its directory
+				// entry has been made durable yet
+				node, ok = st.files[name]
 			}
+			if !ok {
+				return []Value{SliceV{Off: c.BV(64, 0), Len: c.BV(64, 0), Cap: c.BV(64, 0)}, BoolV{c.False}}
+			}
+			n := p.concLen(node.dsize, "verifFSDurable size")
+			arr := newIntArr(n, 8)
+			for i := 0; i < n; i++ {
+				if node.ddata == nil {
+					arr.Ov[uint64(i)] = c.BV(8, 0)
+				} else {
+					arr.Ov[uint64(i)] = node.ddata.read(c, c.BV(64, uint64(i)))
+				}
+			}
+			return []Value{SliceV{Arr: arr, Off: c.BV(64, 0), Len: c.BV(64, uint64(n)), Cap: c.BV(64, uint64(n))}, BoolV{c.True}}
 		}
-		return []Value{SliceV{Arr: arr, Off: c.BV(64, 0), Len: c.BV(64, uint64(n)), Cap: c.BV(64, uint64(n))}, BoolV{c.True}}
 	}
+	m["verif:verifFSDurable"] = durableOf(false)
+	m["verif:verifFSDurableData"] = durableOf(true)
 	// verifFSDurableIs(path, other): true when the durable directory entry `path` is bound to the file that is
 	// (volatile) named `other`: lets a harness ask "is the durable manifest the old or the new file".
 	m["verif:verifFSSameFile"] = func(p *Path, fn *ssa.Function, a []Value, pos token.Pos, caller *ssa.Function) []Value {
@@ -557,6 +617,38 @@ func addFSIntrinsics(m map[string]intrinsic) {
 		_, ok := p.fsState().files[path.Clean(p.concStr(a[0], "name"))]
 		return []Value{BoolV{p.ctx.Bool(ok)}}
 	}
+	m["verif:verifFSSyncPoints"] = func(p *Path, fn *ssa.Function, a []Value, pos token.Pos, caller *ssa.Function) []Value {
+		return []Value{IntV{T: p.ctx.BV(64, uint64(len(p.fsState().syncSnaps)))}}
+	}
+	m["verif:verifFSUnsyncedRenames"] = func(p *Path, fn *ssa.Function, a []Value, pos token.Pos, caller *ssa.Function) []Value {
+		return []Value{IntV{T: p.ctx.BV(64, uint64(p.fsState().unsyncedRenames))}}
+	}
+	// verifFSDurableAtSync(k, path) ([]byte, bool): what a reopen after a crash right after the k-th sync (1-based;
+	// any later operation lost) would find under |path|
+	durableAt := func(prefix string) intrinsic {
+		return func(p *Path, fn *ssa.Function, a []Value, pos token.Pos, caller *ssa.Function) []Value {
+			st := p.fsState()
+			c := p.ctx
+			k := int(p.concretize(p.intOf(a[0]).T, 4096, "sync point"))
+			name := path.Clean(p.concStr(a[1], "verifFSDurableAtSync name"))
+			none := []Value{SliceV{Off: c.BV(64, 0), Len: c.BV(64, 0), Cap: c.BV(64, 0)}, BoolV{c.False}}
+			if k < 1 || k > len(st.syncSnaps) {
+				p.unsupported("verifFSDurableAtSync: no such sync point")
+			}
+			sn, ok := st.syncSnaps[k-1][prefix+name]
+			if !ok {
+				return none
+			}
+			n := p.concLen(sn.size, "durable size at sync point")
+			arr := newIntArr(n, 8)
+			for i := 0; i < n; i++ {
+				arr.Ov[uint64(i)] = sn.data.read(c, c.BV(64, uint64(i)))
+			}
+			return []Value{SliceV{Arr: arr, Off: c.BV(64, 0), Len: c.BV(64, uint64(n)), Cap: c.BV(64, uint64(n))}, BoolV{c.True}}
+		}
+	}
+	m["verif:verifFSDurableAtSync"] = durableAt("")
+	m["verif:verifFSDurableDataAtSync"] = durableAt("data:")
 	m["verif:verifFSMutations"] = func(p *Path, fn *ssa.Function, a []Value, pos token.Pos, caller *ssa.Function) []Value {
 		return []Value{IntV{T: p.ctx.BV(64, uint64(p.fsState().mutations))}}
 	}
